@@ -21,17 +21,28 @@ const R0: i64 = 1_700_000_000_000_000_000;
 const M0: i64 = 5_000_000_000_000;
 const SEC: i64 = 1_000_000_000;
 
-static CHRONY_MODE: AtomicU8 = AtomicU8::new(0); // 0 answers, 1 silent
-static CHRONY_LATENCY_NS: AtomicI64 = AtomicI64::new(0);
+static CHRONY_MODE: AtomicU8 = AtomicU8::new(0); // 0 answers at once, 1 absent (the request fails at once), 2 wedged (socket present, never replies)
+static LAST_QUERY_NS: AtomicI64 = AtomicI64::new(0);
 static SHM_PATH: Mutex<Option<PathBuf>> = Mutex::new(None);
 
-fn chrony_hook(_r: RequestBody, _o: ClientOptions) -> std::io::Result<Reply> {
+/// Environment model of the datagram exchange with chronyd. A wedged chronyd makes the request last
+/// as long as the client's own options say: it re-sends after every `timeout` and gives up when its
+/// attempt counter (a u16 that is incremented before it is compared) equals `n_tries`.
+fn chrony_hook(_r: RequestBody, o: ClientOptions) -> std::io::Result<Reply> {
     if sched::query_point().is_err() {
         return Err(sched::drained_query());
     }
-    vclock::global_advance(CHRONY_LATENCY_NS.load(Ordering::SeqCst));
-    let res = if CHRONY_MODE.load(Ordering::SeqCst) == 1 {
-        Err(std::io::Error::new(std::io::ErrorKind::TimedOut, "verif: chronyd silent"))
+    let mode = CHRONY_MODE.load(Ordering::SeqCst);
+    let lat: i64 = if mode == 2 {
+        let tries: i64 = if o.n_tries == 0 { 65_536 } else { o.n_tries as i64 };
+        tries.saturating_mul(o.timeout.as_nanos().min(i64::MAX as u128 / 70_000) as i64)
+    } else {
+        0
+    };
+    LAST_QUERY_NS.fetch_max(lat, Ordering::SeqCst);
+    vclock::global_advance(lat);
+    let res = if mode != 0 {
+        Err(std::io::Error::new(std::io::ErrorKind::TimedOut, "verif: chronyd does not answer"))
     } else {
         let spec = TrackSpec { ref_id: 0, leap: 0, ref_time_ns: R0 as i128, offset_bits: encode_float(0.001), delay_bits: encode_float(0.01), disp_bits: encode_float(0.01), interval_bits: encode_float(16.0) };
         parse_reply(&tracking_wire(&spec, 1)).map_err(|e| std::io::Error::new(std::io::ErrorKind::InvalidData, e))
@@ -87,8 +98,8 @@ static S_HOOKS: clock_bound_shm::verif::Hooks = clock_bound_shm::verif::Hooks { 
 struct Scenario {
     fault: Option<Fault>,
     startup_failure: bool,
-    chrony_silent: bool,
-    query_latency_ns: i64,
+    /// 0: chronyd answers at once; 1: absent (requests fail at once); 2: wedged (never replies)
+    chrony_mode: u8,
     reverse_keys: bool,
     unfair_budget: usize,
 }
@@ -96,7 +107,7 @@ struct Scenario {
 impl Scenario {
     fn json(&self) -> Value {
         json!({"fault": self.fault.map(|f| json!({"thread": (["main", "poller", "writer"][f.thread.min(2)]), "opportunity": f.at, "kind": format!("{:?}", f.kind)})), "segment_uncreatable": self.startup_failure,
-               "chronyd_silent": self.chrony_silent, "query_latency_ns": self.query_latency_ns, "abort_broadcast_reversed": self.reverse_keys, "unfair_timeouts_allowed": self.unfair_budget})
+               "chronyd": (["answers", "absent", "wedged"][self.chrony_mode.min(2) as usize]), "abort_broadcast_reversed": self.reverse_keys, "unfair_timeouts_allowed": self.unfair_budget})
     }
     fn from_json(v: &Value) -> Scenario {
         let fault = if v["fault"].is_null() {
@@ -104,7 +115,7 @@ impl Scenario {
         } else {
             Some(Fault { thread: if v["fault"]["thread"] == "poller" { 1 } else { 2 }, at: v["fault"]["opportunity"].as_u64().unwrap() as usize, kind: if v["fault"]["kind"] == "Panic" { FaultKind::Panic } else { FaultKind::Return } })
         };
-        Scenario { fault, startup_failure: v["segment_uncreatable"].as_bool().unwrap_or(false), chrony_silent: v["chronyd_silent"].as_bool().unwrap_or(false), query_latency_ns: v["query_latency_ns"].as_i64().unwrap_or(0), reverse_keys: v["abort_broadcast_reversed"].as_bool().unwrap_or(false), unfair_budget: v["unfair_timeouts_allowed"].as_u64().unwrap_or(0) as usize }
+        Scenario { fault, startup_failure: v["segment_uncreatable"].as_bool().unwrap_or(false), chrony_mode: match v["chronyd"].as_str() { Some("absent") => 1, Some("wedged") => 2, _ => 0 }, reverse_keys: v["abort_broadcast_reversed"].as_bool().unwrap_or(false), unfair_budget: v["unfair_timeouts_allowed"].as_u64().unwrap_or(0) as usize }
     }
 }
 
@@ -117,7 +128,9 @@ struct Exec {
 }
 
 fn run_once(sc: &Scenario, prefix: Vec<usize>, dir: &Path, horizon_iters: i64, log: bool) -> Exec {
-    run_once_h(sc, prefix, dir, M0 + (horizon_iters + 12) * SEC + 4 * sc.query_latency_ns * (horizon_iters + 2), log)
+    // a wedged chronyd holds every request for 3 s with the library's default options
+    let per_iter = if sc.chrony_mode == 2 { 4 * SEC } else { SEC };
+    run_once_h(sc, prefix, dir, M0 + (horizon_iters + 12) * per_iter, log)
 }
 
 fn run_once_h(sc: &Scenario, prefix: Vec<usize>, dir: &Path, horizon_ns: i64, log: bool) -> Exec {
@@ -131,8 +144,8 @@ fn run_once_h(sc: &Scenario, prefix: Vec<usize>, dir: &Path, horizon_ns: i64, lo
         p
     };
     *SHM_PATH.lock().unwrap() = Some(seg);
-    CHRONY_MODE.store(if sc.chrony_silent { 1 } else { 0 }, Ordering::SeqCst);
-    CHRONY_LATENCY_NS.store(sc.query_latency_ns, Ordering::SeqCst);
+    CHRONY_MODE.store(sc.chrony_mode, Ordering::SeqCst);
+    LAST_QUERY_NS.store(0, Ordering::SeqCst);
     vclock::global_arm(R0, M0);
     sched::reset(Setup { prefix, fault: sc.fault, unfair_budget: sc.unfair_budget, reverse_keys: sc.reverse_keys, horizon_steps: 600, horizon_ns, log_events: log });
     let r = std::panic::catch_unwind(|| clock_bound_d::thread_manager::run(1000, None));
@@ -234,8 +247,18 @@ fn judge(sc: &Scenario, e: &Exec, tally: &mut Tally) {
         tally.add("C15:lingers-deadlock", format!("after {} the daemon neither exits nor makes progress: thread states {:?}", e.rep.fault_label.clone().unwrap_or_else(|| "the segment could not be created".into()), e.rep.waiting), doc());
         return;
     }
+    // "within a few seconds": the poll period, one request in progress (at most the 3 x 1 s the
+    // library's default options allow against a chronyd that never replies) and the join
+    let limit = (4 + sc.unfair_budget as i64) * SEC + if sc.chrony_mode == 2 { 2 * 3 * SEC } else { 0 };
+    if (e.rep.horizon_hit || !e.returned) && e.latency_ns.unwrap_or(i64::MAX) <= limit {
+        // the execution was cut before the time allowed for the exit had passed: nothing to judge
+        tally.judged -= 1;
+        tally.vacuous += 1;
+        *tally.outcomes.entry("horizon reached before the exit deadline".to_string()).or_insert(0) += 1;
+        return;
+    }
     if e.rep.horizon_hit || !e.returned {
-        tally.add("C15:does-not-exit", format!("after {} the daemon was still running at the horizon ({} timeouts fired; main ended by {:?})", e.rep.fault_label.clone().unwrap_or_else(|| "the segment could not be created".into()), e.rep.timeouts_fired, e.main_unwound_by), doc());
+        tally.add("C15:does-not-exit", format!("after {} the daemon was still running {:.0} virtual seconds later ({} timeouts fired; main ended by {:?}; thread states {:?})", e.rep.fault_label.clone().unwrap_or_else(|| "the segment could not be created".into()), e.latency_ns.unwrap_or(0) as f64 / 1e9, e.rep.timeouts_fired, e.main_unwound_by, e.rep.waiting), doc());
         return;
     }
     if !e.rep.unfinished_at_return.is_empty() {
@@ -243,7 +266,6 @@ fn judge(sc: &Scenario, e: &Exec, tally: &mut Tally) {
     }
     let lat = e.latency_ns.unwrap_or(0);
     tally.max_latency_ns = tally.max_latency_ns.max(lat);
-    let limit = (4 + sc.unfair_budget as i64) * SEC + 2 * sc.query_latency_ns;
     if lat > limit {
         tally.add("C15:slow-exit", format!("the daemon took {:.1} virtual seconds to exit after {}", lat as f64 / 1e9, e.rep.fault_label.clone().unwrap_or_default()), doc());
     }
@@ -308,16 +330,16 @@ pub fn run(ctx: &Ctx) -> i32 {
     // probe: fault-free default schedule, to enumerate each worker's fault opportunities
     let mut scenarios: Vec<Scenario> = vec![];
     let mut opp_catalogue = json!({});
-    for silent in [false, true] {
-        let probe_sc = Scenario { fault: None, startup_failure: false, chrony_silent: silent, query_latency_ns: 0, reverse_keys: false, unfair_budget: 0 };
+    for mode in [0u8, 1, 2] {
+        let probe_sc = Scenario { fault: None, startup_failure: false, chrony_mode: mode, reverse_keys: false, unfair_budget: 0 };
         // the probe runs the first h+1 poller iterations only: faults are placed inside that window
-        let probe = run_once_h(&probe_sc, vec![], &base, M0 + h * SEC + SEC / 2, false);
+        let probe = run_once_h(&probe_sc, vec![], &base, M0 + h * (if mode == 2 { 4 * SEC } else { SEC }) + SEC / 2, false);
         if !probe.rep.horizon_hit {
             machinery_failure("the fault-free daemon stopped by itself in the probe run");
         }
         for t in [1usize, 2] {
             let labels = probe.rep.opp_labels.get(t).cloned().unwrap_or_default();
-            opp_catalogue[format!("{}{}", if t == 1 { "poller" } else { "writer" }, if silent { " (chronyd silent)" } else { "" })] = json!(labels);
+            opp_catalogue[format!("{} (chronyd {})", if t == 1 { "poller" } else { "writer" }, ["answers", "absent", "wedged"][mode as usize])] = json!(labels);
             for (k, l) in labels.iter().enumerate() {
                 for kind in [FaultKind::Panic, FaultKind::Return] {
                     if kind == FaultKind::Return && !l.contains("return") {
@@ -329,19 +351,17 @@ pub fn run(ctx: &Ctx) -> i32 {
                             if (reverse || u > 0) && tier == Tier::Quick && k % 3 != 0 {
                                 continue; // quick tier: the secondary dimensions on every third placement
                             }
-                            scenarios.push(Scenario { fault: Some(Fault { thread: t, at: k, kind }), startup_failure: false, chrony_silent: silent, query_latency_ns: 0, reverse_keys: reverse, unfair_budget: u });
+                            if mode == 2 && tier == Tier::Quick && (reverse || u > 0) {
+                                continue;
+                            }
+                            scenarios.push(Scenario { fault: Some(Fault { thread: t, at: k, kind }), startup_failure: false, chrony_mode: mode, reverse_keys: reverse, unfair_budget: u });
                         }
                     }
                 }
             }
         }
-        scenarios.push(Scenario { fault: None, startup_failure: true, chrony_silent: silent, query_latency_ns: 0, reverse_keys: false, unfair_budget: 0 });
-        scenarios.push(Scenario { fault: None, startup_failure: true, chrony_silent: silent, query_latency_ns: 0, reverse_keys: true, unfair_budget: 1 });
-    }
-    if tier == Tier::Thorough {
-        // slow chronyd: three one-second tries
-        let extra: Vec<Scenario> = scenarios.iter().filter(|s| s.chrony_silent && s.unfair_budget == 0 && !s.reverse_keys).map(|s| Scenario { query_latency_ns: 3 * SEC, ..s.clone() }).collect();
-        scenarios.extend(extra);
+        scenarios.push(Scenario { fault: None, startup_failure: true, chrony_mode: mode, reverse_keys: false, unfair_budget: 0 });
+        scenarios.push(Scenario { fault: None, startup_failure: true, chrony_mode: mode, reverse_keys: true, unfair_budget: 1 });
     }
     // iterative preemption bounding: everything with 0, then 1, ... preemptions
     let mut total = Tally::default();
